@@ -20,7 +20,7 @@
     rawtext_endtag_not_recovered comment_dashes_not_recovered attr_ws_not_recovered_xhtml
     markup_text_not_recovered raw_table_matches_reader normEol_id doctype_table_is_w3c
     doctype_literal_roundtrip xmldecl_literal_roundtrip html_roundtrip_doc_partial xhtml_roundtrip_doc_tokens_partial
-    xhtml_roundtrip_doc_partial output_no_cr xhtml_roundtrip_doc_readxml_partial
+    xhtml_roundtrip_doc_partial output_no_cr xhtml_roundtrip_doc_readxml_partial doctype_gt_not_recovered_html
 -/
 import Genshi.Lemmas.ReaderXhtml
 import Genshi.Lemmas.ReaderTree
@@ -580,11 +580,14 @@ theorem xhtml_roundtrip_prolog_partial (o : Opts) (useCache : Bool) (evs : List 
     an empty identifier counts as absent (Python truthiness) — and is inside the tokenizer's
     hypothesis `dtScan`, for all fields that can be told apart in a literal (`dtFieldsOk`: no blank,
     `>` or quote in the name, no `"` in the public identifier, not both kinds of quote in the system
-    identifier). -/
+    identifier); for an HTML parser, which ends a DOCTYPE at the first `>` whether quoted or not,
+    additionally no `>` in the identifiers (`dtNoGt`; see `doctype_gt_not_recovered_html`). -/
 theorem doctype_literal_roundtrip (n : Str) (p s : Option Str) (h : dtFieldsOk n p s = true) :
     parseDoctype (doctypeContent n p s) = some (n, normOpt p, normOpt s) ∧
-    dtScan none (doctypeContent n p s) = true :=
-  ⟨parseDoctype_doctypeContent n p s h, dtScan_doctypeContent n p s h⟩
+    dtScan true none (doctypeContent n p s) = true ∧
+    (dtNoGt p s = true → dtScan false none (doctypeContent n p s) = true) :=
+  ⟨parseDoctype_doctypeContent n p s h, dtScan_doctypeContent true n p s h (by intro hx; cases hx),
+   fun hg => dtScan_doctypeContent false n p s h (fun _ => hg)⟩
 
 /-- The same for the XML declaration: version, encoding (empty = absent) and the standalone flag
     (-1 absent, 0 no, anything else yes) are recovered from the literal, for every version and
@@ -607,7 +610,7 @@ theorem xmldecl_literal_roundtrip (v : Str) (e : Option Str) (s : Int) (h : xdFi
 theorem html_roundtrip_doc_partial (cache dropd : Bool) (u : Str) (hu : u ≠ xmlNs) (dopt : Option DocTypeT)
     (decl : Option DeclT) (dt : Option DocTypeT) (body : List Node)
     (hok : okList body = true) (hns : forestUniformNs u body = true) (hh : htmlForestOkP body = true)
-    (hwin : dtOkOf (winDt dopt dt) = true) :
+    (hwin : dtOkOf (winDt dopt dt) = true) (hgt : dtNoGtOf (winDt dopt dt) = true) :
     (render .html { strip := false, cache := cache, doctype := dopt, dropXmlDecl := dropd }
         (flattenList (docNodes decl dt body))).bind readHtml =
       some (htmlDocView (winDt dopt dt) (forestPiecesP body)) := by
@@ -625,7 +628,7 @@ theorem html_roundtrip_doc_partial (cache dropd : Bool) (u : Str) (hu : u ≠ xm
   simp only [render, chunks, hf, Option.map_some, Option.bind_some, readHtml]
   have hl : ∀ evs, loop .html ⟨dropd⟩ false {} evs = serSpec .html ⟨dropd⟩ {} evs :=
     fun evs => loop_nocache_eq_spec .html ⟨dropd⟩ evs {}
-  rw [hl, html_doc_tokens ⟨dropd⟩ decl dopt dt _ _ (bodyH_forestU u false body hh) hwin]
+  rw [hl, html_doc_tokens ⟨dropd⟩ decl dopt dt _ _ (bodyH_forestU u false body hh) hwin hgt]
   simp only [Option.map_some]
   rw [htmlView_doc _ _ hwin]
 
@@ -794,7 +797,8 @@ def exDopt : Option DocTypeT := some (['h', 't', 'm', 'l'], some ['-', '/', '/',
 
 example : okList exDocBody = true ∧ forestUniformNs xhtmlNs exDocBody = true ∧ htmlForestOkP exDocBody = true ∧
     xKidsOkP false exDocBody = true ∧ xmlForestOkP true exDocBody = true ∧ xdViewOk ⟨false⟩ exDecl = true ∧
-    dtOkOf (winDt exDopt exDt) = true ∧ dtOkOf (winDt none exDt) = true := by decide
+    dtOkOf (winDt exDopt exDt) = true ∧ dtOkOf (winDt none exDt) = true ∧ dtNoGtOf (winDt exDopt exDt) = true := by
+  decide
 
 example : htmlDocView (winDt exDopt exDt) (forestPiecesP exDocBody) =
     [.doctype ['h', 't', 'm', 'l'] (some ['-', '/', '/', 'W', '3', 'C']) (some ['x', '.', 'd', 't', 'd']),
@@ -864,6 +868,14 @@ example : tokens false (loop .html {} true {} [.start ['p'] [], .text ['a', '&',
 theorem pi_gt_not_recovered_html :
     let evs : List FEv := [.pi ['x'] ['a', '>', 'b']]
     tokens false (loop .html {} true {} evs).flatten ≠ some (htmlExpectedP evs) := by decide
+
+/-- a DOCTYPE identifier that contains `>` is cut short by an HTML parser, quoted or not (html.parser
+    and the HTML5 tokenizer end the declaration at the first `>`; expat is quote-aware): the rest is
+    read as live markup (known finding C08-doctype-gt-html, reported by work package `san`) -/
+theorem doctype_gt_not_recovered_html :
+    let evs : List FEv := [.doctype ['h', 't', 'm', 'l'] none (some ['x', '>', '<', 'b', '>'])]
+    tokens false (loop .html {} true {} evs).flatten ≠ some (htmlExpectedP evs) ∧
+    tokens true (loop .xhtml {} true {} evs).flatten = some (xhtmlExpectedP {} evs) := by decide
 
 /-- `]]>` inside a CDATA section ends it early (limit of the format) -/
 theorem cdata_end_not_recovered :
